@@ -37,6 +37,7 @@ Inductive bexp :=
 | BMembersEmpty                                       (* not members *)
 | BHasSimplexMembers                                  (* self.has_simplex(members): frozenset(members) in self._edge.values() *)
 | BOr (a b : bexp)
+| BInLocal (i : nat) (k : vexp)                        (* k in <the i-th bound collection> *)
 | BNot (b : bexp) | BAnd (a b : bexp).
 Inductive stmt :=
 | SIf (c : bexp) (th el : list stmt)
@@ -99,6 +100,7 @@ Fixpoint beval (b : bexp) (en : env) (s : hg) : bool + exc :=
                | inr e => inr e
                end
   | BIdxIn t => inl (has (match e_idx en with Some i => i | None => LNone end) (tab t s))
+  | BInLocal i k => inl (mem (veval k en) (nth i (e_locals en) []))
   | BNot c => match beval c en s with inl v => inl (negb v) | inr e => inr e end
   | BAnd a c => match beval a en s with
                 | inl false => inl false
@@ -337,3 +339,14 @@ Definition run_remove_simplex_id (body : list stmt) (idx : lbl) (sup : list lbl)
   | Some _ => keyerror_as_xgierror
                 (match exec_list body (mkEnv [idx] [] LNone [] LNone [sup] [] None LNone []) s with (s', o) => (s', o, O) end)
   end.
+
+(* SimplicialComplex.remove_simplex_ids_from(ebunch): `all_ids = set(self._edge.keys())` is the 0-th bound collection (a snapshot),
+   then for every idx of ebunch the guards (`continue`) and the call of the translated remove_simplex_id; what _supfaces_id
+   returns at that moment is given by `supf` *)
+Definition run_remove_simplex_ids_from (gs : list (bexp * guard_action)) (callee : list stmt) (supf : hg -> lbl -> list lbl)
+           (ids : list lbl) (s : hg) : res :=
+  let all_ids := keys (h_edge s) in
+  loop (fun s idx => match run_guards gs (mkEnv [idx] [] LNone [] LNone [all_ids] [] None LNone []) s with
+                     | Some r => r
+                     | None => run_remove_simplex_id callee idx (supf s idx) s
+                     end) ids s.
